@@ -235,7 +235,7 @@ def run(case, tape=None):
                     legal = None          # not named by the property: refusing and allocating on demand are both fine
             try:
                 if kind == 'set':
-                    grid.setLayout(op[1])
+                    grid.setLayout(cm.fresh(op[1]))
                 elif kind == 'overwrite':
                     salt += 1
                     Gn = cm.global_array(shape, case['dtype'], salt)
